@@ -481,16 +481,34 @@ class Builder:
             meth["output"] = f".{pkg}.{resp['name']}"
         elif kind == "lro":
             meth["output"] = ".google.longrunning.Operation"
-            locs = [t for t in self.pool if t["kind"] == "message" and t["file"] <= fileidx and t["full"].count(".") == pkg.count(".") + 2
-                    and t["full"].startswith("." + pkg + ".")]
-            if locs:
-                r = self.d(st.sampled_from(locs))["full"]
-                md = self.d(st.sampled_from(locs))["full"]
-                short = lambda full: full[len(pkg) + 2:] if self.d(st.booleans()) else full[1:]
-                meth["lro"] = {"response": short(r) if self.d(st.integers(0, 5)) else "google.protobuf.Empty",
-                               "metadata": short(md)}
+            # top-level messages of the target API visible by name: the method's own package (relative or
+            # fully-qualified names) and other packages of the API (fully-qualified only); the defining file
+            # need not be imported by the service's file, so later files count too
+            def top(t):
+                return t["kind"] == "message" and t["msg"] is not None and t["file"] >= 0 and t["full"].count(".") == t["pkg"].count(".") + 2
+            same = [t for t in self.pool if top(t) and t["pkg"] == pkg]
+            other = [t for t in self.pool if top(t) and t["pkg"] != pkg]
+            def name_of(t):
+                if t["pkg"] == pkg and self.d(st.booleans()):
+                    return t["full"][len(pkg) + 2:]          # relative to the method's package
+                return t["full"][1:]
+            def pick():
+                if other and _p(self.draw, 0.3):
+                    return name_of(self.d(st.sampled_from(other)))
+                if same:
+                    return name_of(self.d(st.sampled_from(same)))
+                return "google.protobuf.Empty"
+            r = "google.protobuf.Empty" if self.d(st.integers(0, 5)) == 0 else pick()
+            md = pick()
+            variant = self.d(st.sampled_from(["ok"] * 8 + ["no-annotation", "missing-response", "missing-metadata"])) if self.p.get("lro_variants") else "ok"
+            if variant == "no-annotation":
+                pass                                   # raw Operation is returned
+            elif variant == "missing-response":
+                meth["lro"] = {"response": "", "metadata": md}
+            elif variant == "missing-metadata":
+                meth["lro"] = {"response": r, "metadata": ""}
             else:
-                meth["lro"] = {"response": "google.protobuf.Empty", "metadata": "google.protobuf.Struct"}
+                meth["lro"] = {"response": r, "metadata": md}
         elif self.coin("p_dep_io"):
             meth["output"] = self.d(st.sampled_from(DEP_RESPONSES))
         else:
